@@ -1,8 +1,6 @@
 (* Lgeneve — Geneve codec (layers/geneve.go as repaired on agent-fixer): contributions to C19, C05, C01.
-   The serializer (gn_serialize) is modelled and tied to the code by the correspondence runs and the
-   C06/C07 oracles; its theorems (C07_geneve_no_panic, C07_geneve_junk_free, C06_geneve_roundtrip)
-   are stated below as Definitions and NOT proved (time): partial. *)
-From GP Require Import Base Codec MiscLib LgeneveModel LgeneveProofs.
+   Decoder and serializer theorems (C19, C05, C06, C07, C01). *)
+From GP Require Import Base Codec MiscLib LgeneveModel LgeneveProofs LgeneveSer LgeneveRt.
 Open Scope Z_scope.
 
 Theorem C19_geneve_no_panic : forall old data, is_panic (snd (fst (gn_decode_into old data))) = false.
@@ -26,21 +24,28 @@ Print Assumptions C05_geneve_fresh.
 Theorem C01_geneve_render_total : forall old data, gn_render_panics (fst (fst (gn_decode_into old data))) = false.
 Proof. reflexivity. Qed.
 
-(* stated, not proved *)
-Definition C07_geneve_no_panic_statement : Prop := forall l payload fixl csum junk,
+Theorem C07_geneve_no_panic : forall l payload fixl csum junk,
   is_panic (fst (gn_serialize l payload fixl csum junk)) = false.
-Definition C07_geneve_junk_free_statement : Prop := forall l payload fixl csum junk1 junk2,
+Proof. exact gn_serialize_no_panic. Qed.
+Print Assumptions C07_geneve_no_panic.
+
+(* every byte of the 8 + options region returned by PrependBytes is written *)
+Theorem C07_geneve_junk_free : forall l payload fixl csum junk1 junk2,
   gn_serialize l payload fixl csum junk1 = gn_serialize l payload fixl csum junk2.
-Definition gn_wf (l : geneve) : Prop :=
-  0 <= gn_version l < 4 /\ 0 <= gn_vni l < 16777216 /\ 0 <= gn_protocol l < 65536 /\
-  Forall (fun o => 0 <= go_class o < 65536 /\ 0 <= go_type o < 256 /\ 0 <= go_flags o < 8 /\
-                   zlen (go_data o) mod 4 = 0 /\ zlen (go_data o) <= 124) (gn_options l) /\
-  fold_left (fun a o => a + 4 + gn_dlen o) (gn_options l) 0 <= 252.
-Definition C06_geneve_roundtrip_statement : Prop := forall l payload csum junk bytes l' old,
+Proof. exact gn_serialize_junk_free. Qed.
+Print Assumptions C07_geneve_junk_free.
+
+(* C06 with FixLengths: 2-bit version, 24-bit VNI, 16-bit protocol, options with 16-bit class, 8-bit type,
+   3-bit flags, data in whole words of at most 124 octets, at most 252 option octets (gn_wf): decoding
+   the written bytes into any object gives the fields, the options as FixLengths left them (Length =
+   4 + len(Data)), OptionsLength and the payload back, no error, no truncation *)
+Theorem C06_geneve_roundtrip : forall l payload csum junk bytes l' old,
   gn_wf l -> gn_serialize l payload true csum junk = (Ok bytes, l') ->
   exists d, gn_decode_into old bytes = (d, Ok tt, false) /\ gn_payload d = payload /\
     gn_version d = gn_version l /\ gn_vni d = gn_vni l /\ gn_protocol d = gn_protocol l /\
     gn_oam d = gn_oam l /\ gn_critical d = gn_critical l /\ gn_options d = gn_options l' /\ gn_optlen d = gn_optlen l'.
+Proof. exact gn_roundtrip. Qed.
+Print Assumptions C06_geneve_roundtrip.
 
 Example Lgeneve_nonvacuous :
   let l := mkGn [] [] 0 0 false true 25944 10 [mkGo 258 128 0 0 [1;2;3;4]] in
